@@ -661,14 +661,37 @@ def p10_row_identifier_correspondence(prog):
             pushed = p.calls(lambda e: e['name'] == 'push' and e['path'].startswith('alloc::vec') and any(is_adt(a_, ID_T) for a_ in e['f'].get('args', [])))
             for n_, e in enumerate(acts):
                 loc = S(e['vals'][1]) if len(e['vals']) > 1 else None
-                # the location is one fresh element of the `locations` iterator
-                if not (isinstance(loc, tuple) and pathsem.mentions(loc, lambda t: t[0] == 'call' and t[1].endswith('::next')) and loc not in used_locs):
+                # the location is one fresh element of the `locations` iterator: its `next()`, or the element a `zip` with
+                # the batch's iterator pairs with this slot
+                loc_par = ('p', 2, f.body.local_name(2) or '')
+
+                def batch_root(it):
+                    t = pathsem.iter_chain(it)[0]
+                    while isinstance(t, tuple) and t and t[0] in ('r', 'd'):
+                        t = t[1]
+                    if isinstance(t, tuple) and t and t[0] == 'L' and t[1] == 0:
+                        t = ('p', t[2], f.body.local_name(t[2]) or '')
+                    return t == loc_par or (isinstance(t, tuple) and t[0] == 'call' and 'Locations' in t[1] and t[1].endswith('::new'))
+                zipped = isinstance(loc, tuple) and loc[0] == 'elem' and batch_root(loc[1]) and \
+                    any(any(S(v) == S(loc[1]) or pathsem.mentions(v, lambda t: t == loc[1]) for v in z['vals']) for z in p.calls(lambda z: z['name'] == 'zip'))
+                if not (isinstance(loc, tuple) and (pathsem.mentions(loc, lambda t: t[0] == 'call' and t[1].endswith('::next')) or zipped) and loc not in used_locs):
                     bad = bad or 'a reused slot is activated with something other than the next location of the batch'
                 used_locs.append(loc)
                 # ... and exactly one identifier is pushed for it, naming that slot's index, in the same order
                 later = [q for q in pushed if q['i'] > e['i'] and (n_ + 1 >= len(acts) or q['i'] < acts[n_ + 1]['i'])]
                 slot_idx = [t[2][1] for t in pathsem.subterms(e['args'][0]) if t[0] == 'call' and t[1].rsplit('::', 1)[-1] in ('get_unchecked_mut', 'index_mut', 'get_mut') and len(t[2]) == 2]
                 mine = [q for q in later if slot_idx and pathsem.mentions(q['vals'][1], lambda t: t == S(slot_idx[0]))]
+                if zipped and not pushed:
+                    # the identifier is what the mapping closure hands to `extend` of the returned Vec
+                    stop = acts[n_ + 1]['i'] if n_ + 1 < len(acts) else len(p.events)
+                    stop = min([stop] + [q['i'] for q in p.events if q['k'] == 'consume_end' and q['i'] > e['i']])
+                    outs = [q for q in p.events if q['k'] == 'leave' and e['i'] < q['i'] < stop and isinstance(q.get('ret'), tuple) and q['ret'][0] == 'call' and q['ret'][1].endswith('identifier::Identifier::new')]
+                    mine = [q for q in outs if slot_idx and q['ret'][2] and S(q['ret'][2][0]) == S(slot_idx[0])]
+                    into = [c for c in p.calls(lambda c: c.get('consumer') and c['i'] < e['i']) if p.ret is not None and S(c['vals'][0]) == S(p.ret)]
+                    if p.ended == 'return' and not into:
+                        bad = bad or 'the identifiers of reused slots are not collected into the Vec that is returned'
+                    if [q for q in outs if q not in mine]:
+                        bad = bad or 'the identifier produced for a reused slot does not carry that slot\'s index'
                 # pushes after the last activation may also belong to the fresh part (identifiers with the constant
                 # generation 0): they are judged there
                 others = [q for q in later if q not in mine and not pathsem.mentions(q['vals'][1], lambda t: t == ('c', 0))]
@@ -689,11 +712,13 @@ def p10_row_identifier_correspondence(prog):
                 continue
             nret += 1
             def is_range(u):
-                return isinstance(u, tuple) and u and u[0] == 'agg' and isinstance(u[1], str) and u[1].startswith('core::ops::Range')
+                return isinstance(u, tuple) and u and u[0] == 'agg' and isinstance(u[1], str) and u[1] in ('core::ops::Range', 'core::ops::range::Range', 'core::ops::RangeInclusive', 'core::ops::range::RangeInclusive')
             # fresh identifiers: generation is the constant 0
             news = [e for e in p.calls(lambda e: e['name'] == 'new' and 'entity::identifier::Identifier' in e['path']) if len(e['args']) > 1 and e['args'][1] == ('c', 0)]
             ext = [e for e in p.calls(lambda e: e.get('consumer') and pathsem.tstr(e['args'][0]).endswith('self.%d' % slots_i))]
             nexts = [e for e in p.calls(lambda e: e['path'] == 'core::iter::Iterator::next' and not any(pathsem.mentions(a_, is_range) for a_ in list(e['args']) + list(e['vals'])))]
+            # ... or a consumer that draws the reused part from the batch through `by_ref()`
+            nexts += [e for e in p.calls(lambda e: e.get('consumer') and any(pathsem.mentions(v, lambda t: t[0] == 'it' and t[1] == 'by_ref') for v in e['vals']))]
             if len(ext) != 1:
                 bad = 'expected one extension of self.slots per path (found %d)' % len(ext)
                 break
